@@ -76,6 +76,31 @@ def skip_stage(body):
     return dict(op='skipminus', body=body, tla='[op |-> "skipminus", body |-> <<%s>>]' % ', '.join(b['tla'] for b in body))
 
 
+def lattice(n, nact, sep):
+    neg = n // 2 + (-nact // 2) * sep + (sep // 2 if nact % 2 == 0 else 0)
+    pos = n // 2 + (nact // 2) * sep + (sep // 2 if nact % 2 == 0 else 0)
+    return list(range(neg, pos, sep))
+
+
+def dm_stage(n, ifn, nact, sep, shift, gain=2):
+    iy = ix = lattice(n, nact, sep)
+    seq = lambda xs: '<<%s>>' % ', '.join(map(str, xs))
+    return dict(op='dmconv', tla='[op |-> "dmconv", n |-> <<%d, %d>>, ifn |-> %s, iy |-> %s, ix |-> %s, nact |-> %d, sep |-> %d, shift |-> <<%d, %d>>, gain |-> %d]'
+                % (n, n, mat(ifn), seq(iy), seq(ix), nact, sep, shift[0], shift[1], gain))
+
+
+def padcrop_stage(inn, out):
+    return dict(op='padcrop', tla='[op |-> "padcrop", inn |-> <<%d, %d>>, out |-> <<%d, %d>>]' % (inn[0], inn[1], out[0], out[1]))
+
+
+def scale_stage(sc):
+    return dict(op='scale', tla='[op |-> "scale", sc |-> %s]' % rat(sc))
+
+
+def real_stage():
+    return dict(op='real', tla='[op |-> "real"]')
+
+
 def moduli(stages):
     out = []
     for st in stages:
@@ -96,8 +121,9 @@ def c2left(stages):
 
 def program(name, kind, shape, stages, mask_mod=1, **params):
     M = lcm(mask_mod, *moduli(stages))
+    real = ', real |-> TRUE' if kind == 'dm' else ''
     return dict(name=name, kind=kind, shape=shape, stages=stages, mod=M, params=params, c2left=c2left(stages),
-                tla='[name |-> "%s", mod |-> %d, shape |-> <<%d, %d>>, stages |-> <<%s>>]' % (name, M, shape[0], shape[1], ', '.join(s['tla'] for s in stages)))
+                tla='[name |-> "%s", mod |-> %d, shape |-> <<%d, %d>>, stages |-> <<%s>>%s]' % (name, M, shape[0], shape[1], ', '.join(s['tla'] for s in stages), real))
 
 
 def ident(n):
@@ -173,11 +199,30 @@ def programs(tier):
     for r, c in ((3, 3), (4, 4), (3, 5), (5, 3), (5, 5)):
         out.append(program('gradx%dx%d' % (r, c), 'gradx', (r, c), [int_stage(ident(r), diffmat(c))]))
         out.append(program('grady%dx%d' % (r, c), 'grady', (r, c), [int_stage(diffmat(r), ident(c))]))
+    # 9: deformable mirror: gather, circular convolution with the influence function, integer shift, gain, resample, pad / crop
+    n = 0
+    for (nn, nact, sep), shift, nout, ups in itertools.product(((6, 2, 2), (7, 2, 2), (8, 3, 2), (4, 2, 1), (5, 2, 1)), ((0, 0), (1, 0), (-1, 2)), (0, 3, -2), (1, 2)):
+        n += 1
+        if ups == 1 and (nn < 6 or (quick and n % 5 not in (1, 3))):
+            continue
+        if ups == 2 and (nn > 5 or (quick and shift == (1, 0))):
+            continue
+        ifn = [[((3 * a + 5 * b + a * b) % 7) - 2 for b in range(nn)] for a in range(nn)]
+        stages = [dm_stage(nn, ifn, nact, sep, shift)]
+        inter = nn
+        if ups != 1:
+            inter = nn * ups
+            stages += [dft_stage(Axis(nn, nn, (1, 1)), Axis(nn, nn, (1, 1)), 1, True), dft_stage(Axis(nn, inter, (ups, 1)), Axis(nn, inter, (ups, 1)), -1, True),
+                       scale_stage(ups * ups), real_stage()]
+        out_n = inter + nout
+        if nout:
+            stages.append(padcrop_stage((inter, inter), (out_n, out_n)))
+        out.append(program('dm%d' % n, 'dm', (nact, nact), stages, n=nn, ifn=ifn, nact=nact, sep=sep, shift=shift, nout=out_n, upsample=ups))
     return out
 
 
 def cfg_lin(progs, emit, variant='design'):
-    laws = ('TapeDiscipline', 'ShapeLaw', 'AdjointLaw', 'NormLaw', 'Nonzero')
+    laws = ('TapeDiscipline', 'ShapeLaw', 'AdjointLaw', 'NormLaw', 'Nonzero', 'LatticeLaw')
     c = 'INIT Init\nNEXT Next\nCHECK_DEADLOCK FALSE\nCONSTANTS\n Variant = "%s"\n EmitOn = %s\n' % (variant, 'TRUE' if emit else 'FALSE')
     c += 'INVARIANT Emit\n' if emit else ''.join('INVARIANT %s\n' % i for i in laws)
     return c, dict(Programs='<<%s>>' % ', '.join(p['tla'] for p in progs))
@@ -257,6 +302,14 @@ def impl_pair(np, p):
     if k == 'modes':
         modes = np.array(q['modes'], dtype=float)
         return (lambda w: sum_of_2d_modes(modes, w.ravel().real)), (lambda yb: np.asarray(sum_of_2d_modes_backprop(modes, yb)).reshape(-1, 1)), modes.shape[1:]
+    if k == 'dm':
+        from prysm.x.dm import DM
+        dm = DM(np.array(q['ifn'], dtype=float), q['nout'], Nact=q['nact'], sep=q['sep'], shift=tuple(q['shift']), upsample=q['upsample'])
+
+        def fwd(a):
+            dm.update(a.real.copy())
+            return dm.render(wfe=True)
+        return fwd, (lambda yb: dm.render_backprop(yb.real.copy(), wfe=True)), (q['nout'], q['nout'])
     g = SpatialGradient2D()
     if k == 'gradx':
         return g.forward_x, g.backprop_x, shape
@@ -281,12 +334,17 @@ def replay_lin(rec, p, ctx, np):
         tag += ':%s:%s' % ('square' if shape[0] == shape[1] and q['out'][0] == q['out'][1] else 'non-square', 'shifted' if (q['sx'][0] or q['sy'][0]) else 'centred')
     elif k in ('gradx', 'grady'):
         tag += ':%s' % ('square' if shape[0] == shape[1] else 'non-square')
+    elif k == 'dm':
+        q = p['params']
+        tag += ':%s:%s:%s' % ('shifted' if tuple(q['shift']) != (0, 0) else 'unshifted', 'pad' if q['nout'] > q['n'] * q['upsample'] else 'crop' if q['nout'] < q['n'] * q['upsample'] else 'same', 'upsample%d' % q['upsample'])
     desc = '%s %s params=%s' % (p['name'], shape, {a: b for a, b in p['params'].items() if a not in ('mask', 'lyot', 'modes')})
     ctx.replayed(1, key=p['name'])
+    if k == 'dm':
+        A, B = A.real.copy(), B.real.copy()
     if core.maxabs(B - A.conj().T) > 1e-9:
         raise core.Machinery('emitted B is not A^H for %s' % p['name'])
     rng = np.random.RandomState(ctx.seed + len(p['name']))
-    real_in = k in ('modes', 'gradx', 'grady')
+    real_in = k in ('modes', 'gradx', 'grady', 'dm')
     try:
         fwd, bwd, oshape = impl_pair(np, p)
         for trial in range(2):
@@ -296,7 +354,7 @@ def replay_lin(rec, p, ctx, np):
             if got.shape != tuple(oshape) or core.maxabs(got - want) > 1e-9 * max(1.0, float(np.abs(want).max())):
                 ctx.fail('Lin:forward:' + tag, '%s: forward differs from the exact operator: shape %s, max |diff| %.3g' % (desc, got.shape, core.maxabs(got - want) if got.shape == tuple(oshape) else float('nan')), {'program': p['name'], 'lin': rec})
                 return
-            yb = rng.normal(size=oshape) + (0 if k in ('gradx', 'grady') else 1j * rng.normal(size=oshape))
+            yb = rng.normal(size=oshape) + (0 if k in ('gradx', 'grady', 'dm') else 1j * rng.normal(size=oshape))
             wantb = (B @ yb.ravel()).reshape(shape)
             gotb = np.asarray(bwd(yb.copy()))
             if gotb.shape != shape:
@@ -320,8 +378,8 @@ def replay_lin(rec, p, ctx, np):
 
 
 def chunks(xs, n):
-    k = max(1, (len(xs) + n - 1) // n)
-    return [xs[i:i + k] for i in range(0, len(xs), k)]
+    """n interleaved parts (expensive programs sit next to each other in the list)"""
+    return [xs[i::n] for i in range(n) if xs[i::n]]
 
 
 def run_linear(ctx, np, selftest):
@@ -339,7 +397,7 @@ def run_linear(ctx, np, selftest):
         c, d = cfg_lin(small, False, variant=variant)
         ctx.tlc('Adjoint', c, defs=d, name='pinned-' + variant, emit=False, must_hold=False, count=False, coverage=False)
     thunks = []
-    for n, part in enumerate(chunks(progs, 8)):
+    for n, part in enumerate(chunks(progs, 14)):
         c, d = cfg_lin(part, True)
         thunks.append(lambda c=c, d=d, n=n: ctx.tlc('Adjoint', c, defs=d, name='tape-emit-%d' % n, coverage=False, count=False, timeout=3000))
     recs = []
@@ -362,10 +420,279 @@ def run_linear(ctx, np, selftest):
     return progs, recs
 
 
+# ---------------------------------------------------------------------------------------------- non-linear nodes (Grad.tla)
+def R(f):
+    f = Fraction(f)
+    return '<<%d, %d>>' % (f.numerator, f.denominator)
+
+
+def RS(fs):
+    return '<<%s>>' % ', '.join(R(f) for f in fs)
+
+
+def F(*a):
+    return Fraction(*a)
+
+
+def act_cases(tier):
+    out = []
+    us = {'sigmoid': (F(1, 3), F(1), F(5, 2), F(7)), 'tanh': (F(1, 3), F(1), F(5, 2), F(7)), 'softplus': (F(1, 3), F(1), F(5, 2), F(7)), 'arctan': (F(-2), F(0), F(1, 3), F(3, 2))}
+    n = 0
+    for f, a, x0, y0 in itertools.product(('sigmoid', 'tanh', 'softplus', 'arctan'), (F(1), F(2), F(1, 2), F(-3, 2)), (F(0), F(1, 3)), (F(0), F(-2))):
+        for u in us[f]:
+            n += 1
+            if tier == 'quick' and n % 2:
+                continue
+            out.append('[f |-> "%s", a |-> %s, x0 |-> %s, y0 |-> %s, u |-> %s]' % (f, R(a), R(x0), R(y0), R(u)))
+    return out
+
+
+def soft_cases(tier):
+    rows = [[(F(1), F(2), F(3)), (F(1, 2), F(4), F(1))], [(F(2), F(2)), (F(1, 3), F(5))], [(F(1), F(1, 4), F(3), F(2)), (F(5), F(1), F(1), F(1, 2))]]
+    grads = {2: (F(1), F(-2)), 3: (F(1), F(0), F(-3, 2)), 4: (F(2), F(-1), F(1, 2), F(0))}
+    levels = {2: (F(0), F(1)), 3: (F(-1), F(1, 2), F(3)), 4: (F(0), F(1), F(2), F(3))}
+    out = []
+    for inputs in rows:
+        n = len(inputs[0])
+        out.append('[kind |-> "softmax", tau |-> <<1, 1>>, levels |-> %s, inputs |-> <<%s>>, grad |-> %s]' % (RS(levels[n]), ', '.join(RS(r) for r in inputs), RS(grads[n])))
+        for tau in ((F(1), F(1, 2), F(3)) if tier != 'quick' else (F(1, 2), F(3))):
+            out.append('[kind |-> "gumbel", tau |-> %s, levels |-> %s, inputs |-> <<%s>>, grad |-> %s]' % (R(tau), RS(levels[n]), ', '.join(RS(r) for r in inputs), RS(grads[n])))
+            out.append('[kind |-> "encoder", tau |-> %s, levels |-> %s, inputs |-> <<%s>>, grad |-> %s]' % (R(tau), RS(levels[n]), ', '.join(RS(r) for r in inputs), RS((F(-3, 2),))))
+    return out
+
+
+def cost_cases(tier):
+    out = []
+    data = [((F(1), F(3), F(2), F(5)), (F(2), F(5), F(4), F(9))), ((F(1), F(4), F(2), F(2), F(7), F(3)), (F(3), F(3), F(1), F(4), F(8), F(2))), ((F(1, 2), F(3), F(2), F(5, 2)), (F(1), F(2), F(2), F(4)))]
+    masks = [(), (1, 2, 4), (2, 3, 4)]
+    for (m, d), mask, kind in itertools.product(data, masks, ('mse', 'bgi')):
+        mk = tuple(i for i in mask if i <= len(m))
+        if len(m) == 6 and mask:
+            mk = mk + (6,)
+        out.append('[kind |-> "%s", m |-> %s, d |-> %s, mask |-> {%s}]' % (kind, RS(m), RS(d), ', '.join(map(str, mk))))
+    ys = [((F(1, 2), F(1, 3), F(3, 4), F(1, 5)), (F(1), F(0), F(1), F(0))), ((F(2, 3), F(1, 4), F(1, 2), F(9, 10)), (F(1, 2), F(1), F(0), F(1, 3)))]
+    for (y, yh), mask in itertools.product(ys, masks):
+        out.append('[kind |-> "nll", m |-> %s, d |-> %s, mask |-> {%s}]' % (RS(y), RS(yh), ', '.join(map(str, mask))))
+    return out
+
+
+def field_cases(tier):
+    out = []
+    es = [((F(1), F(2)), (F(-3), F(1, 2)), (F(0), F(1)), (F(2), F(0))), ((F(1, 2), F(-1, 3)), (F(3), F(3)), (F(-1), F(0)), (F(0), F(0)))]
+    for e in es:
+        out.append('[kind |-> "intensity", e |-> <<%s>>, bar |-> %s, amp |-> << >>, k |-> <<1, 1>>]' % (', '.join('<<%s, %s>>' % (R(a), R(b)) for a, b in e), RS((F(1), F(-2), F(1, 2), F(3)))))
+    ph = [((F(3, 5), F(4, 5)), (F(1), F(0)), (F(-5, 13), F(12, 13)), (F(0), F(-1))), ((F(8, 17), F(-15, 17)), (F(-1), F(0)), (F(4, 5), F(3, 5)), (F(7, 25), F(24, 25)))]
+    for e in ph:
+        out.append('[kind |-> "phase", e |-> <<%s>>, bar |-> <<%s>>, amp |-> %s, k |-> <<1, 1>>]' % (
+            ', '.join('<<%s, %s>>' % (R(a), R(b)) for a, b in e), ', '.join('<<%s, %s>>' % (R(a), R(b)) for a, b in ((F(1), F(2)), (F(-1, 2), F(3)), (F(0), F(-1)), (F(2), F(2)))), RS((F(1), F(2), F(1, 2), F(3)))))
+    return out
+
+
+GRAD_LAWS = {'act': ('ActLaw',), 'softmax': ('HistoryLaw', 'SumsToOne'), 'cost': ('CostLaw',), 'field': ('IntensityLaw', 'PhaseLaw')}
+GRAD_CASES = {'act': act_cases, 'softmax': soft_cases, 'cost': cost_cases, 'field': field_cases}
+
+
+def cfg_grad(mode, cases, emit, variant='design'):
+    c = 'INIT Init\nNEXT Next\nCHECK_DEADLOCK FALSE\nCONSTANTS\n Mode = "%s"\n Variant = "%s"\n EmitOn = %s\n' % (mode, variant, 'TRUE' if emit else 'FALSE')
+    c += 'INVARIANT Emit\n' if emit else ''.join('INVARIANT %s\n' % i for i in GRAD_LAWS[mode])
+    return c, dict(Cases='<<%s>>' % ', '.join(cases))
+
+
+def fr(res):
+    return float(modq.to_fraction(res))
+
+
+def fq(t):
+    return t[0] / t[1]
+
+
+class StubRng:
+    """stands in for numpy's Generator inside GumbelSoftmax: returns prescribed uniform samples"""
+    def __init__(self, np):
+        self.np = np
+
+    def uniform(self, low=0, high=1, size=None):
+        n = int(self.np.prod(size))
+        return (0.15 + 0.7 * ((self.np.arange(n) * 0.37) % 1.0)).reshape(size)
+
+
+def replay_act(rec, ctx, np):
+    from prysm.x.optym import activation as ACT
+    cs = rec['cs']
+    f = cs['f']
+    a, x0, y0, u = fq(cs['a']), fq(cs['x0']), fq(cs['y0']), fq(cs['u'])
+    x = x0 + (u if f == 'arctan' else math.log(u) / (2 * a if f == 'tanh' else a))
+    fw = rec['fwd']
+    want = fr(fw['add']) + (0.0 if fw['tag'] == 'rat' else math.log(fr(fw['arg'])) if fw['tag'] == 'ln' else math.atan(fr(fw['arg'])))
+    wantb = fr(rec['back'])
+    node = {'sigmoid': ACT.Sigmoid, 'tanh': ACT.Tanh, 'softplus': ACT.Softplus, 'arctan': ACT.Arctan}[f](a=a, x0=x0, y0=y0)
+    desc = '%s(a=%g, x0=%g, y0=%g) at x=%.6g' % (f, a, x0, y0, x)
+    ctx.replayed(1, key=json.dumps(cs))
+    for shape in ((), (2,), (2, 3)):
+        xin = np.full(shape, x)
+        keep = xin.copy()
+        got, gotb = np.asarray(node.forward(xin)), None
+        if core.maxabs(got - want) > 1e-10 * max(1, abs(want)):
+            ctx.fail('Node:%s:forward' % f, '%s: forward %r, exact %r' % (desc, got.ravel()[0].item(), want), rec)
+            return
+        gotb = np.asarray(node.backprop(xin))
+        if core.maxabs(gotb - wantb) > 1e-10 * max(1, abs(wantb)):
+            ctx.fail('Node:%s:backprop' % f, '%s: backprop(x) %r, exact derivative %r' % (desc, gotb.ravel()[0].item(), wantb), rec)
+            return
+        if shape and not np.array_equal(xin, keep):
+            ctx.fail('Node:%s:mutates-input' % f, '%s: the input array was modified in place' % desc, rec)
+            return
+
+
+def replay_soft(rec, ctx, np):
+    from prysm.x.optym import activation as ACT
+    cs = rec['cs']
+    kind, tau = cs['kind'], fq(cs['tau'])
+    levels = np.array([fq(l) for l in cs['levels']])
+    if kind == 'softmax':
+        node = ACT.Softmax()
+    else:
+        g = ACT.GumbelSoftmax(tau=tau)
+        g.rng = StubRng(np)
+        node = g if kind == 'gumbel' else ACT.DiscreteEncoder(g, levels)
+    n = len(cs['inputs'][0])
+    stub = StubRng(np)
+    ctx.replayed(1, key=json.dumps([cs, rec['hist']]))
+    out = None
+    for k in rec['hist']:
+        v = np.array([[fq(t) for t in cs['inputs'][k - 1]], [fq(t) for t in cs['inputs'][k % len(cs['inputs'])]]])
+        x = np.log(v)
+        if kind != 'softmax':
+            eps = node.eps if kind == 'gumbel' else node.est.eps
+            uu = stub.uniform(size=x.shape)
+            gg = -np.log(-np.log(uu + eps) + eps)
+            x = tau * np.log(v) - gg
+        out = np.asarray(node.forward(x))
+    want = np.array([fr(t) for t in rec['fwd']])
+    desc = '%s tau=%g inputs=%s history=%s' % (kind, tau, [[fq(t) for t in r] for r in cs['inputs']], rec['hist'])
+    got0 = out[0] if kind != 'encoder' else out[:1]
+    if core.maxabs(np.ravel(got0) - want) > 1e-9:
+        ctx.fail('Node:%s:forward' % kind, '%s: forward %s, exact %s' % (desc, np.ravel(got0).tolist(), want.tolist()), rec)
+        return
+    grad = np.array([fq(t) for t in cs['grad']])
+    if kind == 'encoder':
+        gb = np.asarray(node.backprop(np.array([grad[0], 0.7])))
+    else:
+        gb = np.asarray(node.backprop(np.stack([grad, grad[::-1] * 0.3])))
+    wantb = np.array([fr(t) for t in rec['back']])
+    if gb.shape != (2, n) or core.maxabs(gb[0] - wantb) > 1e-9 * max(1.0, float(np.abs(wantb).max())):
+        ctx.fail('Node:%s:backprop' % kind, '%s: backprop %s, exact vector-Jacobian product at the last forward input %s' % (desc, gb[0].tolist() if gb.ndim == 2 else gb.tolist(), wantb.tolist()), rec)
+
+
+def replay_cost(rec, ctx, np):
+    from prysm.x.optym import cost as COST
+    cs = rec['cs']
+    kind = cs['kind']
+    m = np.array([fq(t) for t in cs['m']])
+    d = np.array([fq(t) for t in cs['d']])
+    shape = (2, len(m) // 2)
+    mask = np.array(cs['mask']).reshape(shape) if cs['masked'] else None
+    M, D = m.reshape(shape), d.reshape(shape)
+    ctx.replayed(1, key=json.dumps(cs))
+    fn = {'mse': COST.mean_square_error, 'bgi': COST.bias_and_gain_invariant_error, 'nll': COST.negative_loglikelihood}[kind]
+    keepM = M.copy()
+    cost, grad = fn(M, D, mask)
+    wantg = np.array([fr(t) for t in rec['grad']]).reshape(shape)
+    if kind == 'nll':
+        wantc = sum(fr(c) * math.log(fr(a)) for terms in rec['nll'] if terms for c, a in terms)
+    else:
+        wantc = fr(rec['cost'])
+    tag = '%s:%s' % (kind, 'masked' if cs['masked'] else 'unmasked')
+    desc = '%s M=%s D=%s mask=%s' % (kind, m.tolist(), d.tolist(), None if mask is None else mask.ravel().tolist())
+    if abs(float(cost) - wantc) > 1e-10 * max(1.0, abs(wantc)):
+        ctx.fail('Cost:%s:value' % tag, '%s: cost %r, exact %r' % (desc, float(cost), wantc), rec)
+    grad = np.asarray(grad)
+    if grad.shape != shape or core.maxabs(grad - wantg) > 1e-10 * max(1.0, float(np.abs(wantg).max())):
+        ctx.fail('Cost:%s:gradient' % tag, '%s: gradient %s, exact d cost / d M %s' % (desc, grad.ravel().tolist(), wantg.ravel().tolist()), rec)
+    if not np.array_equal(M, keepM):
+        ctx.fail('Cost:%s:mutates-input' % tag, '%s: the model array was modified' % desc, rec)
+
+
+def replay_field(rec, ctx, np):
+    from prysm.propagation import Wavefront
+    cs = rec['cs']
+    e = np.array([complex(fq(a), fq(b)) for a, b in cs['e']]).reshape(2, 2)
+    ctx.replayed(1, key=json.dumps(cs))
+    if cs['kind'] == 'intensity':
+        ibar = np.array([fq(t) for t in cs['bar']]).reshape(2, 2)
+        wf = Wavefront(e.copy(), 0.6, 1.0)
+        inten = np.asarray(wf.intensity.data)
+        if core.maxabs(inten - np.abs(e) ** 2) > 1e-12:
+            ctx.fail('Field:intensity:forward', 'intensity of %s is %s' % (e.ravel().tolist(), inten.ravel().tolist()), rec)
+        gb = np.asarray(wf.intensity_backprop(ibar).data)
+        want = np.array([complex(fr(a), fr(b)) for a, b in rec['gbar']]).reshape(2, 2)
+        if core.maxabs(gb - want) > 1e-10:
+            ctx.fail('Field:intensity:backprop', 'intensity_backprop(%s) at E=%s is %s, exact 2 Ibar E = %s' % (ibar.ravel().tolist(), e.ravel().tolist(), gb.ravel().tolist(), want.ravel().tolist()), rec)
+        return
+    amp = np.array([fq(t) for t in cs['amp']]).reshape(2, 2)
+    pbar = np.array([complex(fq(a), fq(b)) for a, b in cs['bar']]).reshape(2, 2)
+    wvl = 0.5
+    k = 2 * math.pi / wvl / 1e3
+    phi = np.angle(e) / k
+    wf = Wavefront.from_amp_and_phase(amp, phi, wvl, 1.0)
+    if core.maxabs(np.asarray(wf.data) - amp * e) > 1e-12:
+        ctx.fail('Field:phase:forward', 'from_amp_and_phase gives %s, exact %s' % (np.asarray(wf.data).ravel().tolist(), (amp * e).ravel().tolist()), rec)
+        return
+    got = np.asarray(wf.from_amp_and_phase_backprop_phase(Wavefront(pbar, wvl, 1.0)))
+    want = k * np.array([fr(t) for t in rec['phibar']]).reshape(2, 2)
+    if core.maxabs(got - want) > 1e-10 * max(1.0, float(np.abs(want).max())):
+        ctx.fail('Field:phase:backprop', 'from_amp_and_phase_backprop_phase gives %s, exact k Im(Pbar conj(P)) = %s' % (got.ravel().tolist(), want.ravel().tolist()), rec)
+
+
+GRAD_REPLAY = {'act': replay_act, 'softmax': replay_soft, 'cost': replay_cost, 'field': replay_field}
+
+
+def run_grad(ctx, np, selftest):
+    cases = {m: GRAD_CASES[m](ctx.tier) for m in GRAD_CASES}
+    thunks = []
+    for mode in cases:
+        c, d = cfg_grad(mode, cases[mode], False)
+        thunks.append(lambda c=c, d=d, mode=mode: ctx.tlc('Grad', c, defs=d, name='grad-laws-' + mode, emit=False, workers=4, coverage=(mode == 'softmax'),
+                                                           require_actions=('Backprop', 'Next') if mode == 'softmax' else (), timeout=3000))
+    core.parallel(thunks, max_workers=4)
+    c, d = cfg_grad('cost', [x for x in cases['cost'] if '"bgi"' in x][:3], False, variant='bgi-array-bias')
+    ctx.tlc('Grad', c, defs=d, name='pinned-bgi-array-bias', emit=False, must_hold=False, count=False, coverage=False)
+    c, d = cfg_grad('softmax', cases['softmax'][:2], False, variant='stale-forward')
+    ctx.tlc('Grad', c, defs=d, name='pinned-stale-forward', emit=False, must_hold=False, count=False, coverage=False)
+    thunks = []
+    for mode in cases:
+        for n, part in enumerate(chunks(cases[mode], 3)):
+            c, d = cfg_grad(mode, part, True)
+            thunks.append(lambda c=c, d=d, mode=mode, n=n: ctx.tlc('Grad', c, defs=d, name='grad-emit-%s-%d' % (mode, n), coverage=False, count=False, timeout=3000))
+    recs = []
+    for part in core.parallel(thunks):
+        recs += part.records
+    if len(recs) < sum(len(v) for v in cases.values()):
+        raise core.Machinery('Grad emitted %d records for %d cases' % (len(recs), sum(len(v) for v in cases.values())))
+    for rec in recs:
+        try:
+            GRAD_REPLAY[rec['mode']](rec, ctx, np)
+        except Exception as ex:
+            import traceback
+            if not any('/prysm/' in f.filename for f in traceback.extract_tb(ex.__traceback__)):
+                raise
+            ctx.fail('Node:raised:%s:%s' % (rec['mode'], rec['cs'].get('kind', rec['cs'].get('f'))), '%s: %s' % (type(ex).__name__, str(ex)[:300]), rec)
+    if selftest:
+        rec = json.loads(json.dumps(next(r for r in recs if r['mode'] == 'act' and r['cs']['f'] == 'tanh')))
+        rec['back'] = modq.from_fraction(modq.to_fraction(rec['back']) + Fraction(1, 1000))
+        before = len(ctx.fails)
+        replay_act(rec, ctx, np)
+        if len(ctx.fails) == before:
+            raise core.Machinery('selftest: a corrupted exact derivative was not noticed')
+        del ctx.fails[before:]
+        ctx.notes.append('selftest: corrupted exact derivative rejected')
+    return cases, recs
+
+
 def run(ctx, replay_path=None, selftest=False, replay=None):
     import numpy as np
     replay_path = replay_path or replay
-    for m in ('Rat', 'Adjoint'):
+    for m in ('Rat', 'ModQ', 'Adjoint', 'Grad'):
         core.sany(m)
     if replay_path:
         rec = json.load(open(replay_path))['record']
@@ -376,8 +703,12 @@ def run(ctx, replay_path=None, selftest=False, replay=None):
             by_name = {p['name']: p for p in programs('thorough')}
             by_name.update({p['name']: p for p in programs('quick')})
             replay_lin(rec['lin'], by_name[rec['program']], ctx, np)
+        else:
+            GRAD_REPLAY[rec['mode']](rec, ctx, np)
         return
     progs, recs = run_linear(ctx, np, selftest)
+    gcases, grecs = run_grad(ctx, np, selftest)
     ctx.sample({'program': progs[0]['name'], 'kind': progs[0]['kind'], 'shape': progs[0]['shape']})
-    ctx.bounds = {'linear programs': len(progs)}
-    ctx.assumptions += ['linear routines are examined on shapes 2..5 per axis with Q, shifts and masks from small rational / root-of-unity menus; the operator matrices are exact in Z[zeta_M]']
+    ctx.bounds = {'linear programs': len(progs), 'node cases': {m: len(v) for m, v in gcases.items()}, 'softmax histories': sum(1 for r in grecs if r['mode'] == 'softmax')}
+    ctx.assumptions += ['activation arguments are on the ln-rational family (exp of the argument rational), arctan at rational arguments, phases with rational cos and sin; the Gumbel noise of GumbelSoftmax comes from a stub generator',
+                        'linear routines are examined on shapes 2..5 per axis with Q, shifts and masks from small rational / root-of-unity menus; the operator matrices are exact in Z[zeta_M]']
